@@ -510,6 +510,193 @@ theorem fr_runOps (v : Variant) (L : Nat) :
     simp only [runOps]
     exact (fr_runForm v op.be op.form op.sc op.cfg s).weaken.trans (fr_runOps v L ops _)
 
+/-! ## the pinned loop restores what it perturbed when nothing fails -/
+
+/-- heap frame without a freshness premise -/
+def HS (L : Nat) (s s' : St) : Prop :=
+  L ≤ s.heap.length → L ≤ s'.heap.length ∧ ∀ r, r < L → s'.heap[r]? = s.heap[r]?
+
+theorem HS.refl (L : Nat) (s : St) : HS L s s := fun h => ⟨h, fun _ _ => rfl⟩
+
+theorem HS.trans {L : Nat} {a b c : St} (h1 : HS L a b) (h2 : HS L b c) : HS L a c := by
+  intro hl
+  obtain ⟨hb, hb'⟩ := h1 hl
+  obtain ⟨hc, hc'⟩ := h2 hb
+  exact ⟨hc, fun r hr => by rw [hc' r hr, hb' r hr]⟩
+
+theorem HS.of_Fr {L : Nat} {s s' : St} (h : Fr True L s s') : HS L s s' := h.2 trivial
+
+theorem set_set_getD (l : List Int) (i : Nat) (a b : Int) :
+    ((l.set i a).set i b).set i (l.getD i 0) = l := by
+  rw [List.set_set, List.set_set]
+  by_cases h : i < l.length
+  · simp [List.getD, h]
+  · rw [List.set_eq_of_length_le (by omega)]
+
+theorem writeAt_get (s : St) (x : Ref) (i : Nat) (v : Int) (r : Nat) :
+    (writeAt s x i v).heap[r]? =
+      if r = x then (s.heap[x]?).map (fun c => { c with data := c.data.set i v }) else s.heap[r]? := by
+  unfold writeAt
+  split
+  · rename_i c hc
+    have hx : x < s.heap.length := by
+      rcases Nat.lt_or_ge x s.heap.length with h | h
+      · exact h
+      · rw [List.getElem?_eq_none h] at hc; cases hc
+    simp only [List.getElem?_set]
+    by_cases hr : r = x
+    · subst hr; rw [if_pos rfl, if_pos hx, if_pos rfl, hc]; rfl
+    · have : ¬ x = r := fun h => hr h.symm
+      rw [if_neg this, if_neg hr]
+  · rename_i hc
+    by_cases hr : r = x
+    · subst hr; simp [hc]
+    · simp [hr]
+
+theorem probe_get (sc : Script) (cfg : Cfg) (w : Wrap) (x : Ref) (i : Nat) (d : Int) (s : St) (r : Nat)
+    (hr : r < s.heap.length) :
+    (probe sc cfg w x i d s).1.heap[r]? = (writeAt s x i d).heap[r]? := by
+  unfold probe
+  simp only [invoke_heap]
+  have hl := writeAt_length s x i d
+  unfold copyOf
+  split <;> (simp only [alloc]; rw [List.getElem?_append_left (by omega)])
+
+theorem probe_len (sc : Script) (cfg : Cfg) (w : Wrap) (x : Ref) (i : Nat) (d : Int) (s : St) :
+    s.heap.length ≤ (probe sc cfg w x i d s).1.heap.length := by
+  unfold probe
+  simp only [invoke_heap]
+  have hl := writeAt_length s x i d
+  unfold copyOf
+  split <;> (simp only [alloc, List.length_append, List.length_cons, List.length_nil]; omega)
+
+theorem gradLoop_succ (L : Nat) (sc : Script) (cfg : Cfg) (w : Wrap) (x : Ref) :
+    ∀ (is : List Nat) (s : St), (gradLoop sc cfg w x is s).2 = true → HS L s (gradLoop sc cfg w x is s).1
+  | [], s, _ => HS.refl _ _
+  | i :: is, s, hok => by
+    simp only [gradLoop] at hok ⊢
+    split at hok
+    · split at hok
+      · rename_i h1 h2
+        simp only [h1, h2, if_true]
+        refine HS.trans ?_ (gradLoop_succ L sc cfg w x is _ hok)
+        intro hl
+        have l1 := probe_len sc cfg w x i (origAt s x i + eps) s
+        have l2 := probe_len sc cfg w x i (origAt s x i - eps) (probe sc cfg w x i (origAt s x i + eps) s).1
+        refine ⟨by rw [writeAt_length]; omega, fun r hr => ?_⟩
+        rw [writeAt_get]
+        have g2 : ∀ r, r < s.heap.length →
+            (probe sc cfg w x i (origAt s x i - eps) (probe sc cfg w x i (origAt s x i + eps) s).1).1.heap[r]? =
+            if r = x then (s.heap[x]?).map (fun c =>
+              { c with data := (c.data.set i (origAt s x i + eps)).set i (origAt s x i - eps) })
+            else s.heap[r]? := by
+          intro r hr
+          rw [probe_get _ _ _ _ _ _ _ _ (by omega), writeAt_get]
+          by_cases hx : r = x
+          · subst hx
+            simp only [if_true]
+            rw [probe_get _ _ _ _ _ _ _ _ hr, writeAt_get]
+            simp only [if_true, Option.map_map]
+            rfl
+          · simp only [hx, if_false]
+            rw [probe_get _ _ _ _ _ _ _ _ hr, writeAt_get]
+            simp only [hx, if_false]
+        by_cases hx : r = x
+        · subst hx
+          simp only [if_true]
+          rw [g2 r (by omega)]
+          simp only [if_true, Option.map_map]
+          cases hc : s.heap[r]? with
+          | none => rfl
+          | some c =>
+            simp only [Option.map_some, Function.comp, origAt, hc]
+            rw [set_set_getD]
+        · simp only [hx, if_false]
+          rw [g2 r (by omega)]
+          simp only [hx, if_false]
+      · cases hok
+    · cases hok
+
+theorem numericGrad_succ (L : Nat) (v : Variant) (sc : Script) (cfg : Cfg) (w : Wrap) (b : Bind) (s : St)
+    (hok : (numericGrad v sc cfg w b s).2 = true) : HS L s (numericGrad v sc cfg w b s).1 := by
+  cases h : asF64 v s b with
+  | none => simp only [numericGrad, h]; exact HS.refl _ _
+  | some p =>
+    obtain ⟨s1, x⟩ := p
+    simp only [numericGrad, h] at hok ⊢
+    exact (HS.of_Fr (asF64_spec True L v s s1 b x h).1).trans (gradLoop_succ L sc cfg w x _ s1 hok)
+
+theorem mgradLoop_succ (L : Nat) (v : Variant) (sc : Script) (cfg : Cfg) (ps : List Name) (vals : List Bind) :
+    ∀ (is : List Nat) (s : St), (mgradLoop v sc cfg ps vals is s).2 = true →
+      HS L s (mgradLoop v sc cfg ps vals is s).1
+  | [], s, _ => HS.refl _ _
+  | i :: is, s, hok => by
+    simp only [mgradLoop] at hok ⊢
+    cases hb : vals[i]? with
+    | none => simp only [hb] at hok; cases hok
+    | some b =>
+      simp only [hb] at hok ⊢
+      split at hok
+      · rename_i h1
+        simp only [h1, if_true]
+        exact (numericGrad_succ L v sc cfg _ b s h1).trans (mgradLoop_succ L v sc cfg ps vals is _ hok)
+      · cases hok
+
+theorem runForm_succ (v : Variant) (be : Backend) (form : Form) (sc : Script) (cfg : Cfg) (s : St)
+    (hok : (runForm v be form sc cfg s).2 = true) :
+    HS s.heap.length s (runForm v be form sc cfg s).1 := by
+  have hf : HS s.heap.length s (evalFn cfg s) := HS.of_Fr (fr_evalFn True _ cfg s)
+  unfold runForm at hok ⊢
+  cases form with
+  | gradPoint p =>
+    have he : HS s.heap.length (evalFn cfg s) (evalName (evalFn cfg s) p).1 :=
+      HS.of_Fr (fr_evalName True _ _ p)
+    cases be with
+    | numpy =>
+      dsimp only at hok ⊢
+      exact (hf.trans he).trans (numericGrad_succ _ v sc cfg .direct _ _ hok)
+    | torch =>
+      dsimp only at hok ⊢
+      split
+      · exact hf.trans he
+      · rename_i s1 t hg
+        exact ((hf.trans he).trans (HS.of_Fr (fr_gradTensor True _ _ _ _ _ hg))).trans
+          (HS.of_Fr (fr_callF True _ sc cfg (some t) s1))
+  | nablaSym p =>
+    dsimp only at hok ⊢
+    split
+    · exact hf
+    · rename_i orig ho
+      simp only [ho] at hok
+      exact hf.trans (numericGrad_succ _ v sc cfg (.rebind p orig true) orig _ hok)
+  | jacPoint p =>
+    have he : HS s.heap.length (evalFn cfg s) (evalName (evalFn cfg s) p).1 :=
+      HS.of_Fr (fr_evalName True _ _ p)
+    dsimp only
+    exact (hf.trans he).trans (HS.of_Fr (fr_jacOf True _ be sc cfg .direct _ _ trivial))
+  | multiGrad ps =>
+    dsimp only at hok ⊢
+    split
+    · exact hf
+    · rename_i vals hv
+      simp only [hv] at hok
+      cases be with
+      | numpy =>
+        dsimp only at hok ⊢
+        exact hf.trans (mgradLoop_succ _ v sc cfg ps vals _ _ hok)
+      | torch =>
+        dsimp only
+        split
+        · exact hf
+        · rename_i s1 ts hg
+          exact (hf.trans (HS.of_Fr (fr_gradTensors True _ _ _ _ _ hg))).trans
+            (HS.of_Fr (fr_store (invokeMulti_heap sc cfg ps ts s1) (invokeMulti_store sc cfg ps ts s1)))
+  | multiJac ps =>
+    dsimp only
+    split
+    · exact hf
+    · exact hf.trans (HS.of_Fr (fr_mjacLoop True _ be sc cfg _ _))
+
 /-! ------------------------------------------------------------------------------------------
     ## property theorems
     ------------------------------------------------------------------------------------------ -/
@@ -626,6 +813,30 @@ theorem pinned_not_pure :
     (runForm .pinned .numpy (.multiGrad ["p"]) witnessScript ⟨["p"], none⟩ witnessState).1.heap[0]?
       = some ⟨.f64, [3], [999999, 2000000, 3000000]⟩ ∧
     (runForm .repaired .numpy (.gradPoint "p") witnessScript ⟨["p"], none⟩ witnessState).1.heap[0]?
+      = witnessState.heap[0]? := by
+  decide
+
+/-- **partial** (what the pinned tree does satisfy): for BOTH variants of the loop, when the
+    gradient expression returns normally every pre-existing heap cell is unchanged (the in-place
+    perturbation of an aliased float64 point is undone after the two probes); together with
+    `restore_on_all_paths` the state is then exactly the initial one.  The failure paths are where
+    the pinned loop breaks (`pinned_not_pure`). -/
+theorem pinned_pure_on_success_partial (v : Variant) (be : Backend) (form : Form) (sc : Script) (cfg : Cfg)
+    (s : St) (hok : (runForm v be form sc cfg s).2 = true) :
+    ∀ (r : Nat) (c : Cell), s.heap[r]? = some c → (runForm v be form sc cfg s).1.heap[r]? = some c := by
+  intro r c hc
+  have hr : r < s.heap.length := by
+    rcases Nat.lt_or_ge r s.heap.length with h | h
+    · exact h
+    · rw [List.getElem?_eq_none h] at hc; cases hc
+  rw [(runForm_succ v be form sc cfg s hok (Nat.le_refl _)).2 r hr]; exact hc
+
+/-- non-vacuity: the pinned loop, aliased float64 point, loss never failing: six evaluations,
+    returns, and the point is intact -/
+example :
+    (runForm .pinned .numpy (.gradPoint "p") (fun _ _ => .scalar) ⟨["p"], none⟩ witnessState).2 = true ∧
+    (runForm .pinned .numpy (.gradPoint "p") (fun _ _ => .scalar) ⟨["p"], none⟩ witnessState).1.calls = 6 ∧
+    (runForm .pinned .numpy (.gradPoint "p") (fun _ _ => .scalar) ⟨["p"], none⟩ witnessState).1.heap[0]?
       = witnessState.heap[0]? := by
   decide
 
